@@ -11,6 +11,8 @@ package service
 // producer cursor only grows, never more than `size` ahead of the consumer cursor, and bytes between the two cursors
 // are never overwritten.
 
+//@ property C17 roots (*service).writeMessage, (*stat).increment
+//@ property C15 roots (*buffer).Close, (*buffer).Read, (*buffer).ReadPeek, (*buffer).ReadWait, (*buffer).ReadCommit, (*buffer).Write, (*buffer).WriteWait, (*buffer).WriteCommit, (*buffer).waitForWriteSpace, (*buffer).ReadFrom, (*buffer).WriteTo
 //@ property C14 roots (*sequence).get, (*sequence).set, (*buffer).isDone, (*buffer).Len, (*buffer).waitForWriteSpace, (*buffer).WriteWait, (*buffer).WriteCommit, (*buffer).Write, ringCopy, (*buffer).ReadPeek, (*buffer).ReadWait, (*buffer).ReadCommit, (*buffer).Read, (*buffer).Close, (*buffer).ReadFrom, (*buffer).WriteTo
 
 func vspecWrapI(x int64, size int64) int64 {
@@ -308,3 +310,29 @@ func vspecCovered(x int64, start int64, c int64, size int64) bool {
 //@   ensures[C14:ring] vdefRing(bf) && bf.cseq.cursor >= old(bf.cseq.cursor)
 //@   ensures[C15:close] bf.done == 1
 //@   modifies bf.cseq.cursor, bf.cwait, bf.tmp, capelems(bf.tmp), bf.done, gfield(bf.ccond, "bcast"), gfield(bf.pcond, "bcast")
+
+// ---------------------------------------------------------------- C17: whole packets on the outgoing ring
+//@ func (*stat).increment
+//@   nooverflow
+//@   modifies s.bytes, s.msgs
+
+// writeMessage: under the connection's write mutex, either encode straight into the region reserved at the producer
+// cursor and commit exactly the encoded bytes, or (reservation wraps) encode into the private scratch buffer and
+// write exactly those bytes. Other writers are excluded by wmu for the whole reserve..commit sequence; before the
+// mutex is taken anything may happen to the ring (rely applies at Lock).
+//@ func (*service).writeMessage
+//@   results m, err
+//@   nooverflow
+//@   requires msg != nil && !held(addr(svc.wmu))
+//@   requires svc.out != nil ==> vdefRingB(svc.out) && !held(ifaceval(svc.out.pcond.L, *sync.Mutex)) && !held(ifaceval(svc.out.ccond.L, *sync.Mutex)) && arr(svc.outtmp) != arr(svc.out.buf)
+//@   requires svc.out != nil ==> addr(svc.wmu) != ifaceval(svc.out.pcond.L, *sync.Mutex) && addr(svc.wmu) != ifaceval(svc.out.ccond.L, *sync.Mutex)
+//@   rely modifies svc.out.pseq.cursor, svc.out.pseq.gate, svc.out.cseq.cursor, svc.out.done, svc.out.pwait, elems(svc.out.buf)
+//@   rely ensures vdefRing(svc.out)
+//@   atcall (*buffer).WriteWait requires[C17:mutex] held(addr(svc.wmu))
+//@   atcall (*buffer).WriteCommit requires[C17:mutex] held(addr(svc.wmu))
+//@   atcall (*buffer).WriteCommit requires[C17:commit-what-was-encoded] n == gfield(0, "encn") && gfield(0, "encarr") == arr(bf.buf) && gfield(0, "encoff") == off(bf.buf)+int(bf.pseq.cursor&bf.mask)
+//@   atcall (*buffer).Write requires[C17:mutex] held(addr(svc.wmu))
+//@   atcall (*buffer).Write requires[C17:write-what-was-encoded] len(p) == gfield(0, "encn") && arr(p) == gfield(0, "encarr") && off(p) == gfield(0, "encoff")
+//@   ensures[C17:none] svc.out == nil ==> err != nil
+//@   ensures[C17:count] err == nil ==> m == gfield(0, "encn")
+//@   modifies svc.out.pseq.gate, svc.out.pwait, svc.out.pseq.cursor, elems(svc.out.buf), gfield(svc.out.ccond, "bcast"), svc.outtmp, elems(svc.outtmp), fields(addr(svc.outStat)), heap("F.message.header.remlen"), heap("F.message.header.dirty"), heap("F.message.header.packetID"), message.gPacketID
